@@ -71,8 +71,11 @@ type Checker struct {
 	raw           map[int]map[string][]byte // slots last written by `raw`: shard -> addr\x00key -> value
 	cache         decodeCache
 	cur           *callCtx
-	enc           encMemo // last enc* op (C14 round trip)
-	MaxFindings   int     // recording stops after this many (0 = 10000)
+	enc           encMemo                   // last enc* op (C14 round trip)
+	activation    uint64                    // activation epoch of the world line (C18)
+	lastEpoch     map[int]uint64            // last confirmed epoch per shard (absent = none yet)
+	sched         map[int]map[string]uint64 // gas schedule in force per shard (absent = unknown to the ghost)
+	MaxFindings   int                       // recording stops after this many (0 = 10000)
 }
 
 // New creates a checker observing w.
@@ -93,6 +96,9 @@ func (c *Checker) resetGhost() {
 	c.known = map[string]bool{}
 	c.raw = map[int]map[string][]byte{}
 	c.cur = nil
+	c.activation = 0
+	c.lastEpoch = map[int]uint64{}
+	c.sched = map[int]map[string]uint64{}
 }
 
 // Findings returns the findings recorded so far.
@@ -110,7 +116,7 @@ func (c *Checker) Report(prop, line, what string) {
 	if len(c.findings) >= max {
 		return
 	}
-	c.findings = append(c.findings, Finding{Property: prop, OpIndex: c.idx, Line: line, What: what})
+	c.findings = append(c.findings, Finding{Property: prop, OpIndex: c.idx, Line: strings.TrimRight(line, "\r\n"), What: what})
 }
 
 func (x *callCtx) String() string { return x.line }
@@ -130,6 +136,9 @@ func (c *Checker) inState(st int) []*Msg {
 	}
 	return out
 }
+
+// Decode decodes a stored token entry through the checker's cache (shared result: do not modify).
+func (c *Checker) Decode(b []byte) *TokInfo { return c.cache.decode(b) }
 
 // PayableAnswer is the ghost view of the payable oracle for addr: "yes", "no" or "err".
 func (c *Checker) PayableAnswer(addr []byte) string {
@@ -205,6 +214,12 @@ func (c *Checker) After(line string, obs string) {
 	case "world":
 		if obs == "world ok" || obs == "world err" {
 			c.resetGhost()
+			if len(args) == 5 {
+				c.activation, _ = strconv.ParseUint(args[2], 10, 64)
+				if obs == "world ok" {
+					c.scheduleFromWorld(args[4], c.w.NumShards())
+				}
+			}
 			if obs == "world ok" && len(args) == 5 && args[3] != "-" {
 				for _, t := range strings.Split(args[3], ",") {
 					if b, ok := unhexStr(t); ok {
@@ -228,6 +243,11 @@ func (c *Checker) After(line string, obs string) {
 	case "raw":
 		if obs == "raw ok" && len(args) == 4 {
 			c.afterRaw(args)
+		}
+		return
+	case "gasmap":
+		if obs == "gasmap ok" && len(args) == 2 {
+			c.scheduleChange(args[0], args[1])
 		}
 		return
 	case "call":
@@ -384,6 +404,19 @@ func (c *Checker) actualTotals() map[string]*big.Int {
 }
 
 func diffTotals(want, got map[string]*big.Int) string {
+	// fast path: equal maps (zero entries are never stored)
+	same := len(want) == len(got)
+	if same {
+		for k, w := range want {
+			if g := got[k]; g == nil || g.Cmp(w) != 0 {
+				same = false
+				break
+			}
+		}
+	}
+	if same {
+		return ""
+	}
 	var parts []string
 	keys := map[string]bool{}
 	for k := range want {
